@@ -263,8 +263,9 @@ def check(prop, tier, nworkers, keep, deadline):
         }
         if "race_pass" in m:
             ev["coverage"]["race_pass"] = m["race_pass"]
-        os.makedirs(os.path.join(VERIF, "evidence"), exist_ok=True)
-        json.dump(ev, open(os.path.join(VERIF, "evidence", prop + ".json"), "w"), indent=1)
+        if not os.environ.get("MC_NO_EVIDENCE"):
+            os.makedirs(os.path.join(VERIF, "evidence"), exist_ok=True)
+            json.dump(ev, open(os.path.join(VERIF, "evidence", prop + ".json"), "w"), indent=1)
         print("mc: %s %s: inputs=%d executions=%d choice_points=%d distinct_outcomes=%d nontrivial=%d exhaustive=%s wall=%.1fs (build %.1fs)" % (
             prop, tier, m["inputs"], m["execs"], m["choice_points"], len(m["outcomes"]), m["nontrivial"], m["exhaustive"], wall, info["build_s"]))
         for c in m["caps"]:
